@@ -86,7 +86,9 @@ func OpenFileV2(fpath string, flag int, maxSz int) (FileWrapper, error) {
 
 	var rerr error
 	fileSize := fi.Size()
-	if maxSz > 0 && fileSize == 0 {
+	if maxSz > 0 && fileSize < int64(maxSz) {
+		// The file is new, or the process died while the initial fill below was being written: nothing can have
+		// been stored in it yet (the fill completes before the first slot or meta field is written), fill it again.
 		var buff = make([]byte, maxSz)
 		if _, err = fw.Write(buff); err != nil {
 			fd.Close()
